@@ -332,6 +332,10 @@ BOUNDARY_VALUES = ["Fedora ;Server", "a #b", "a ; b", "a;b", "a ;", "; lead", "#
 BOUNDARY_NAMES = ["a b", "k;x", "k#x", "a ;b", "a #b", "x y.img", "UP low", "k%", "nb\u00a0sp", "t\tab", "n" * 300]
 
 
+def uniq(xs):
+    return list(dict.fromkeys(xs))
+
+
 def bval(rng, normal, rate=0.15, exclude=""):
     """a value from the normal pool, or (with probability `rate`) a boundary value free of the characters in `exclude`"""
     if rng.random() < rate:
@@ -405,11 +409,11 @@ def gen(rng, tier="quick", float_ts=False, dashed_by_id=0.0):
     images = []
     for p in sorted(plats):
         if rng.random() < 0.6:
-            names = rng.sample(IMAGE_NAMES + (BOUNDARY_NAMES if rng.random() < 0.3 else []), rng.randint(0, 4))
+            names = rng.sample(uniq(IMAGE_NAMES + (BOUNDARY_NAMES if rng.random() < 0.3 else [])), rng.randint(0, 4))
             images.append([p, [[k, bval(rng, "images/%s/%s" % (p, k))] for k in names]])
     rng.shuffle(images)
     checks = []
-    for p in rng.sample(CHECKSUM_PATHS + (BOUNDARY_NAMES if rng.random() < 0.3 else []), rng.choice([0, 0, 1, 2, 3])):
+    for p in rng.sample(uniq(CHECKSUM_PATHS + (BOUNDARY_NAMES if rng.random() < 0.3 else [])), rng.choice([0, 0, 1, 2, 3])):
         checks.append([p, bval(rng, ["sha256", "md5", "sha1", "sha512", "SHA256"], rate=0.05, exclude=":"),
                        bval(rng, "%x" % rng.getrandbits(rng.choice([64, 128, 160, 256])), exclude=":")])
     stage2 = {"mainimage": bval(rng, "LiveOS/squashfs.img") if rng.random() < 0.5 else rng.choice([None, None, ""]),
